@@ -1168,9 +1168,12 @@ def to_violations(case, out):
     return vs
 
 
+_ROOT = None  # one temp root per run, created and removed by the parent (workers killed mid-batch leave nothing behind)
+
+
 def run_batch(batch):
     res = {"evals": 0, "n_nontrivial": 0, "samples": [], "outcomes": {}, "violations": [], "parts": {}}
-    tmp = tempfile.mkdtemp(prefix="c13_")
+    tmp = tempfile.mkdtemp(prefix="c13_", dir=_ROOT)
     try:
         for case in batch:
             out = run_one(case, tmp)
@@ -1214,17 +1217,26 @@ def run(rep, tier, seed, parts=None):
             c["sample"] = True
     B = 40
     batches = [cases[i:i + B] for i in range(0, len(cases), B)]
-    for res in common.pmap(run_batch, batches):
-        rep.merge(res)
+    global _ROOT
+    _ROOT = tempfile.mkdtemp(prefix="c13_")
+    try:
+        for res in common.pmap(run_batch, batches):
+            rep.merge(res)
+    finally:
+        shutil.rmtree(_ROOT, ignore_errors=True)
+        _ROOT = None
     rep.rule = ("for each format an independent text encoder writes files from enumerated contents: records 1..3 in every order "
-                "(all 9 permutations; plus the stationary SWAN file), nf in 2..4 (9 for WW3 line wrapping; 2..70/200 for the TRIAXYS "
-                "header grid), the direction grids the format allows, per-record value patterns {ramp, permuted ramp, impulse, constant, "
-                "zero} x 3 magnitudes assigned so that all records and all bins are distinguishable, every documented header variant "
-                "(SWAN: LONLAT/LOCATIONS, AFREQ/RFREQ, NDIR/CDIR, VaDens/EnDens, FACTOR/ZERO/NODATA blocks, TIME/stationary, 1-6 "
-                "locations as sites or grid in both listing orders, dirorder/as_site; NDBC: realtime/history/.gz/no-minute, 1 or 5 "
-                "files, 4 direction grids; TRIAXYS DIRSPEC/NONDIRSPEC; Spotter CSV/JSON, dd None/5/30; Datawell dd, lon/lat; Obscape "
-                "dd 3..120; WW3 1-2 points), one file and several files (every name-order vs time-order). Non-trivial = at least 2 "
-                "frequencies and (2 directions or 2 records) with distinguishable values.")
+                "(all 9 permutations; plus the stationary SWAN file), nf in 2..4 (quick: 2..3 for SWAN/Spotter/Datawell; 9 for WW3 line "
+                "wrapping; 2..70 / 2..200 x 4 (f0, df) pairs for the TRIAXYS header grid), the direction grids the format allows, "
+                "per-record value patterns {ramp, permuted ramp, impulse, constant, zero} x 3 magnitudes (x scales 1e-6..1e3 for SWAN, "
+                "1e-15..40 for WW3) assigned so that all records and all bins are distinguishable, every documented header variant "
+                "(SWAN: LONLAT/LOCATIONS, AFREQ/RFREQ, NDIR/CDIR (0..360 and -180..180), VaDens/EnDens, FACTOR/ZERO/NODATA blocks, "
+                "TIME/stationary, 1-4 (thorough 6) locations as sites or grid in both listing orders (thorough: all 24 orders of a 2x2 "
+                "grid), dirorder/as_site; read_swans with 1..3 cycles x 1..2 sites; NDBC: realtime/history/.gz/no-minute, 1 or 5 files, "
+                "4 direction grids; TRIAXYS DIRSPEC/NONDIRSPEC, glob/list; Spotter CSV/JSON, dd None/5/30, bulk time stamp equal/offset; "
+                "Datawell dd, lon/lat; Obscape dd 3..120; WW3 1-2 points), one file and several files (every name order vs time order). "
+                "In the quick tier the minor SWAN keywords/options rotate with the case index, the thorough tier takes their product. "
+                "Non-trivial = at least 2 frequencies and (2 directions or 2 records) with distinguishable values.")
     rep.extra["times"] = TIME_SETS[seed % len(TIME_SETS)]
     rep.extra["magnitudes"] = MAG_SETS[seed % len(MAG_SETS)]
     rep.assumptions = [
